@@ -86,36 +86,6 @@ Definition is_modv (v : value) : bool := match v with VMod _ => true | VObj _ _ 
 Definition denotes (o : obj) (v : value) : Prop := o_id o = flat v /\ is_modkind (o_kind o) = is_modv v.
 Definition scope_val (m qual : path) : value := match qual with [] => VMod m | _ => VObj m qual end.
 
-Definition is_some {A} (o : option A) : bool := match o with Some _ => true | None => false end.
-
-(* the part of expandName's walk that C04 vouches for: the first part is bound in the context itself, and no
-   later part is found by falling back from a class to its enclosing scope (see the _refuted theorems) *)
-Fixpoint trail_ok (st : state) (o : obj) (first : bool) (parts : list name) : bool :=
-  match parts with
-  | [] => true
-  | p :: rest =>
-    let fn := l2f st o p in
-    let own := is_some (child st o p) || is_some (assoc p (o_amap o)) in
-    let fm := find_for st o p in
-    let here :=
-      if first then own
-      else match o_kind o with
-           | KClass => if own then negb (path_eqb fn [p]) || negb (is_some fm) else path_eqb fn [p]
-           | _ => true
-           end in
-    let notfound := path_eqb fn [p] && negb first in
-    let fn1 := if notfound then match fm with Some inh => o_path inh | None => fn end else fn in
-    here &&
-    (if notfound && path_eqb fn1 [p] then true
-     else match rest with
-          | [] => true
-          | _ => match obj_for st fn1 with
-                 | None => true
-                 | Some nxt => trail_ok st nxt false rest
-                 end
-          end)
-  end.
-
 Section Sound.
   Variable P : project.
   Variable st : state.
